@@ -87,7 +87,10 @@ func (adj *AdjRib) Update(pathList []*Path) {
 				} else if !old.IsRejected() && path.IsRejected() {
 					adj.accepted[rf]--
 				}
-				if old.Equal(path) {
+				if old.Equal(path) && !path.GetTimestamp().Equal(old.GetTimestamp()) {
+					// path objects are shared with other tables and with
+					// watcher goroutines that read the timestamp: only
+					// write when there is something to carry over
 					path.setTimestamp(old.GetTimestamp())
 				}
 				d.knownPathList[idx] = path
